@@ -992,6 +992,13 @@ class Interp:
             f2 = self.fresh_elem_fn2(nm, cur.elem)
             cur.buf.write(f2)
             return cur
+        if type(cur).__name__ == "SymDict":
+            h = ctx.func(nm + "_has", z3.IntSort(), z3.BoolSort())
+            g = ctx.func(nm + "_get", z3.IntSort(), z3.IntSort())
+            cur.has = lambda x: h(zint(x))
+            cur.get = lambda x: Num(g(zint(x)), True)
+            cur.ghost = (h, g)
+            return cur
         raise Unsupported(f"havoc of {type(cur).__name__} variable {nm}")
 
     def fresh_elem_fn(self, nm, elem):
